@@ -3,6 +3,7 @@ from __future__ import annotations
 
 import ast
 
+from .. import efg as _efg
 from ..pyfacts import AnalysisError, src
 from ..genfacts import GenFacts, GEN
 from ..report import Remap
@@ -277,7 +278,7 @@ def run(repo, chk):
     # ---------------- L4 -----------------------------------------------------------------
     pp = gf.inlined('pop')
     for p, ev in pp:
-        conds = {e.text: e.truth for e in ev if e.kind == 'cond'}
+        conds = _efg.Conds(ev)
         asg = [(e.target, src(e.value)) for e in ev if e.kind == 'assign' and e.target.startswith('self.')]
         ok = ('self.stack', 'bubble.prev') in asg and any(t.startswith('self.allocated_arrays[bubble.prev.array_num:]') for t, _ in asg)
         first = next((e for e in ev if e.kind == 'assert'), None)
@@ -297,7 +298,7 @@ def run(repo, chk):
             chk.expect(len(rs) == 1 and src(rs[0].args[0]) == 'bubble.prev.array_num', 'C08.L4', 'pop::dynamic',
                        'dynamic pop must reset ap to the first array allocated inside the bubble', GEN)
     for p, ev in gf.inlined('reset_ap'):
-        conds = {e.text: e.truth for e in ev if e.kind == 'cond'}
+        conds = _efg.Conds(ev)
         if conds.get('array_idx < cur_arrays'):
             arr = [src(e.value) for e in ev if e.kind == 'assign' and e.target == 'array']
             to = [e for e in ev if e.kind == 'sub' and e.func == '.to']
